@@ -202,6 +202,8 @@ class Dataset(object):
 def decode(ev_all, value, asset):
     """Which event (of any asset) does a returned number come from?"""
     best = None
+    if value is None or value != value:
+        return None, None
     for a, ev in ev_all.items():
         for e in ev:
             if e[1] is not None and abs(F(value) - e[1]) <= Fraction(1, 10 ** 9) * (abs(e[1]) + 1):
